@@ -679,3 +679,63 @@ Proof. vm_compute. reflexivity. Qed.
 Example ex_gen_mean :
   baf_by_ranges_gen nanmean_x false dir_rows [("chr1"%string, 0%Z, 150%Z)] (Some true) false = Some [Fin (3 # 4)].
 Proof. vm_compute. reflexivity. Qed.
+
+(* ---- loop ties (whole decision chains and loop iterations, translated from /repo on every run; LOOP_TIES_GUIDE) -- *)
+From CNV Require Gen.FnVcfGenotype Gen.FnVcfAltCount Gen.FnVcfRecords Gen.FnVarySeries.
+From CNV Require Import Proofs.FnVcfGenotype Proofs.FnVcfRecords Proofs.FnVarySeries.
+
+(* vcfio._get_alt_count as a whole (AD / CLCAD2 / AO / NaN chain) on a pysam sample = the model's alt_count_of *)
+Theorem C18_source_get_alt_count : forall r c, omapQ (alt_count_of r c) = py_alt_count r c.
+Proof. exact source_alt_count. Qed.
+
+(* vcfio._extract_genotype as a whole: the depth chain, the zygosity chain, the alt count = the model's three *)
+Theorem C18_source_extract_genotype : forall r c,
+  py_extract_genotype r c = (depth_of r c, zygosity_of (s_gt c), omapQ (alt_count_of r c)).
+Proof. exact source_extract_genotype. Qed.
+
+(* vcfio._parse_records, one iteration of the inner `for alt in record.alts`: the alleles that get a row are the
+   model's real_alts (<NON_REF> skipped) *)
+Theorem C18_source_real_alts : forall r s e,
+  real_alts r
+  = flat_map (fun alt => map (fun _ => alt) (Gen.FnVcfRecords.fn_alt_step alt s (e alt) 0%Z)) (r_alts r).
+Proof. exact source_real_alts. Qed.
+
+(* ... one iteration of the outer `for record in records`: a record with a FILTER other than . / PASS / KEEP is
+   counted and skipped when skip_reject; otherwise the inner loop's rows pass when the record has alleles ... *)
+Theorem C18_source_parse_step : forall n_bad, (forall r, n_bad r <> 0%Z <-> rejected r = true) ->
+  forall cnt skip_reject r rows,
+  step_on n_bad cnt skip_reject r rows
+  = if skip_reject && rejected r then ((cnt + 1)%Z, [])
+    else (cnt, if FnVcfRecords.is_nil (r_alts r) then [] else rows).
+Proof. exact source_parse_step. Qed.
+
+(* ... and the generator run over the records is the model's all_rows (None: a genotype block raised), the counter
+   the number of rejected records *)
+Theorem C18_source_parse_records : forall n_bad, (forall r, n_bad r <> 0%Z <-> rejected r = true) ->
+  forall sidx nidx skip_reject recs cnt,
+  fst (py_all_rows n_bad sidx nidx skip_reject cnt recs) = all_rows sidx nidx skip_reject recs /\
+  snd (py_all_rows n_bad sidx nidx skip_reject cnt recs)
+  = (cnt + Z.of_nat (length (filter (fun r => skip_reject && rejected r) recs)))%Z.
+Proof.
+  intros n_bad H sidx nidx skip_reject recs cnt.
+  exact (conj (source_parse_records n_bad H sidx nidx skip_reject recs cnt)
+              (source_parse_count n_bad H sidx nidx skip_reject recs cnt)).
+Qed.
+
+(* ... a record without samples: depth from INFO DP (else 0), no AF: count 0, zygosity 0 = the model's geno_info *)
+Theorem C18_source_info_geno : forall r af,
+  let '(d, z, a) := Gen.FnVcfRecords.fn_info_geno (is_some (r_info_dp r)) (inject_Z (fillZ (r_info_dp r))) false af in
+  d = inject_Z (g_depth (geno_info r)) /\ z = g_zyg (geno_info r) /\ a = g_count (geno_info r).
+Proof. exact source_info_geno. Qed.
+
+(* intersect.into_ranges.series2value (the per-range step of baf_by_ranges): no hit -> the default, one hit -> that
+   value as it is, else the summary function's value -- the model's s2v_gen for any summary function *)
+Theorem C18_source_series2value : forall f hits,
+  enc (s2v_gen f hits)
+  = Gen.FnVarySeries.fn_series2value (Z.of_nat (length hits)) None (enc (hd XNaN hits)) (enc (f hits)).
+Proof. exact source_s2v_gen. Qed.
+
+Theorem C18_source_summary : forall hits,
+  enc (summary hits)
+  = Gen.FnVarySeries.fn_series2value (Z.of_nat (length hits)) None (enc (hd XNaN hits)) (enc (nanmedian_x hits)).
+Proof. exact source_summary. Qed.
